@@ -369,6 +369,36 @@ def run_engine(workdir, engine, cases, shards=None, timeout=600, tag=""):
     return obs, logs
 
 
+def run_children(workdir, engine, cases, timeout=40, workers=None, tag=""):
+    """one `harness child <engine>` PROCESS per case (a crash or hang of the child is an observation).
+    returns {id: obs}; obs = {"child_crash": stderr-tail, "rc": n} or {"child_timeout": True} when there is no output"""
+    d = os.path.join(workdir, "children" + tag)
+    os.makedirs(d, exist_ok=True)
+
+    def one(c):
+        cf = os.path.join(d, "case_%s.json" % c["id"])
+        of = os.path.join(d, "obs_%s.json" % c["id"])
+        with open(cf, "w") as f:
+            json.dump(c, f)
+        if os.path.exists(of):
+            os.remove(of)
+        rc, out = sh([os.path.join(BIN, "harness"), "child", engine, cf, of], cwd=workdir, timeout=timeout, env=GOENV)
+        if os.path.exists(of):
+            try:
+                with open(of) as f:
+                    o = json.load(f)
+                o["child_rc"] = rc
+                return c["id"], o
+            except ValueError:
+                pass
+        if rc == 124:
+            return c["id"], {"child_timeout": True, "tail": out[-1500:]}
+        return c["id"], {"child_crash": out[-3000:], "rc": rc}
+
+    with ThreadPoolExecutor(max_workers=workers or NCPU) as ex:
+        return dict(ex.map(one, cases))
+
+
 # ----------------------------------------------------------------------------------------------
 # findings, evidence, reporting
 # ----------------------------------------------------------------------------------------------
